@@ -270,7 +270,7 @@ class Distribution(NominalValueMixin):
         return p.add(other, dependency="f")
 
     def __radd__(self, other):
-        return self.add(other, dependency="f")
+        return self.to_pbox().add(other, dependency="f")
 
     def __sub__(self, other):
         p = self.to_pbox()
@@ -285,7 +285,7 @@ class Distribution(NominalValueMixin):
         return p.mul(other, dependency="f")
 
     def __rmul__(self, other):
-        return self.mul(other, dependency="f")
+        return self.to_pbox().mul(other, dependency="f")
 
     def __truediv__(self, other):
         p = self.to_pbox()
@@ -294,7 +294,7 @@ class Distribution(NominalValueMixin):
     def __rtruediv__(self, other):
         p = self.to_pbox()
         try:
-            return other * p.recip()
+            return other * p.reciprocal()
         except:
             return NotImplemented
 
